@@ -27,6 +27,18 @@ POOL = [
     ("logcall", "PUSH 0 PUSH 0 LOG0 PUSH 1 PUSH 2 ADD PUSH 0 PUSH 0 PUSH 0 PUSH 0 PUSH 0 DUP6 GAS CALL SWAP1 POP"),
     # 12 terminal block with pops and a comparison rule
     ("terminal", "DUP1 DUP3 LT ISZERO ISZERO PUSH [tag] 5 JUMPI"),
+    # 13 the same commutative expression twice with swapped operands (unified at user-instruction level), then a store
+    ("commdup", "DUP1 DUP3 ADD DUP3 DUP3 ADD MSTORE"),
+    # 14 a store whose operands are two different computed terms over the same inputs
+    ("storeops", "DUP2 DUP2 ADD DUP3 DUP3 MUL SSTORE"),
+    # 15 duplicated non-arithmetic commutative terms feeding one instruction, result stored
+    ("dupsame", "DUP2 DUP2 AND DUP3 DUP3 AND OR PUSH 0 MSTORE"),
+    # 16 two identical hashes (unify_keccak), result used as storage key
+    ("keccakdup", "PUSH 20 PUSH 0 KECCAK256 PUSH 20 PUSH 0 KECCAK256 ADD DUP1 SLOAD SWAP1 SSTORE"),
+    # 17 byte store inside a word that is loaded afterwards
+    ("mstore8", "DUP1 PUSH 1f MSTORE8 PUSH 0 MLOAD DUP2 DUP2 MSTORE"),
+    # 18 environment rules (BALANCE(ADDRESS), address mask)
+    ("envrules", "ADDRESS BALANCE SELFBALANCE EQ CALLER PUSH ffffffffffffffffffffffffffffffffffffffff AND"),
 ]
 
 NAMES = [n for n, _ in POOL]
